@@ -27,7 +27,6 @@ import (
 	"go/types"
 	"math/big"
 	"reflect"
-	"strings"
 
 	"golang.org/x/tools/go/ssa"
 )
@@ -39,21 +38,21 @@ const (
 )
 
 const (
-	rkBool = 1
-	rkInt = 2
-	rkUint = 7
-	rkUint8 = 8
-	rkUintptr = 12
-	rkComplex128 = 16
-	rkArray = 17
-	rkChan = 18
-	rkFunc = 19
-	rkInterface = 20
-	rkMap = 21
-	rkPtr = 22
-	rkSlice = 23
-	rkString = 24
-	rkStruct = 25
+	rkBool          = 1
+	rkInt           = 2
+	rkUint          = 7
+	rkUint8         = 8
+	rkUintptr       = 12
+	rkComplex128    = 16
+	rkArray         = 17
+	rkChan          = 18
+	rkFunc          = 19
+	rkInterface     = 20
+	rkMap           = 21
+	rkPtr           = 22
+	rkSlice         = 23
+	rkString        = 24
+	rkStruct        = 25
 	rkUnsafePointer = 26
 )
 
@@ -64,9 +63,9 @@ type rval struct {
 	valid bool
 }
 
-func (r rval) kind() int    { k, _ := reflKind(r.T); return k }
-func (r rval) addr() bool   { return r.flag&rvFlagAddr != 0 }
-func (r rval) ro() bool     { return r.flag&rvFlagRO != 0 }
+func (r rval) kind() int       { k, _ := reflKind(r.T); return k }
+func (r rval) addr() bool      { return r.flag&rvFlagAddr != 0 }
+func (r rval) ro() bool        { return r.flag&rvFlagRO != 0 }
 func (r rval) inherit() uint64 { return r.flag & rvFlagRO }
 
 func (p *Path) reflGoPanic(msg string) {
@@ -198,14 +197,6 @@ func (p *Path) reflIntArg(v Value, what string) int {
 		n.Sub(n, pow2(t.S.W))
 	}
 	return int(n.Int64())
-}
-
-func reflIsNamedOrBasic(T types.Type) bool {
-	switch T.(type) {
-	case *types.Named, *types.Basic:
-		return true
-	}
-	return false
 }
 
 // reflBits: Type.Bits for the sized kinds (amd64).
@@ -559,6 +550,9 @@ func init() {
 	})
 	reg(V+"Len", func(p *Path, fn *ssa.Function, a []Value) Value {
 		r := p.rvUnpack(a[0], "Value.Len")
+		if r.valid && r.kind() == rkPtr {
+			panic(p.abort("reflect Value.Len on a pointer (pointer-to-array form is not modelled)"))
+		}
 		p.rvMustBe(r, "Len", rkArray, rkChan, rkMap, rkSlice, rkString)
 		switch x := p.rvLoad(r).(type) {
 		case SliceV:
@@ -567,6 +561,8 @@ func init() {
 			return BVConstU(uint64(len(x.E)), 64)
 		case StrV:
 			return BVConstU(uint64(len(x)), 64)
+		case SymStrV: // symstr.go
+			return BVConstU(uint64(len(x.B)), 64)
 		case *MapObj:
 			if x == nil {
 				return BVConstU(0, 64)
@@ -578,6 +574,9 @@ func init() {
 	})
 	reg(V+"Cap", func(p *Path, fn *ssa.Function, a []Value) Value {
 		r := p.rvUnpack(a[0], "Value.Cap")
+		if r.valid && r.kind() == rkPtr {
+			panic(p.abort("reflect Value.Cap on a pointer (pointer-to-array form is not modelled)"))
+		}
 		p.rvMustBe(r, "Cap", rkArray, rkChan, rkSlice)
 		switch x := p.rvLoad(r).(type) {
 		case SliceV:
@@ -619,11 +618,13 @@ func init() {
 		if r.kind() != rkString {
 			return StrV("<" + p.reflTypeStr(r.T) + " Value>")
 		}
-		s, ok := p.rvLoad(r).(StrV)
-		if !ok {
-			panic(p.abort("reflect Value.String: location does not hold a concrete string"))
+		switch s := p.rvLoad(r).(type) {
+		case StrV:
+			return s
+		case SymStrV: // symstr.go
+			return s
 		}
-		return s
+		panic(p.abort("reflect Value.String: location does not hold a string"))
 	})
 	reg(V+"Bytes", func(p *Path, fn *ssa.Function, a []Value) Value {
 		r := p.rvUnpack(a[0], "Value.Bytes")
@@ -679,6 +680,10 @@ func init() {
 		}
 		fl := r.flag & (rvFlagRO | rvFlagAddr)
 		if !st.Field(i).Exported() {
+			if st.Field(i).Embedded() {
+				// reflect's flagEmbedRO is not inherited by the fields of the embedded struct; only flagStickyRO is modelled
+				panic(p.abort("reflect Value.Field: unexported embedded field (flagEmbedRO is not modelled)"))
+			}
 			fl |= rvFlagRO
 		}
 		return p.rvPack(st.Field(i).Type(), r.loc.child(i), fl)
@@ -777,6 +782,10 @@ func init() {
 		r := p.rvUnpack(a[0], "Value.SetString")
 		p.rvMustBeAssignable(r, "SetString")
 		p.rvMustBe(r, "SetString", rkString)
+		if ss, isSym := a[1].(SymStrV); isSym { // symstr.go
+			p.store(r.loc, ss)
+			return nil
+		}
 		p.store(r.loc, StrV(p.strArg(a[1], "Value.SetString")))
 		return nil
 	})
@@ -841,5 +850,3 @@ func (p *Path) rvElem(r rval) Value {
 	}
 	panic(p.abort(fmt.Sprintf("reflect Value.Elem on kind %d", r.kind())))
 }
-
-var _ = strings.HasPrefix
